@@ -148,7 +148,7 @@ func zzOpenNode(st storage.ManagedStore) *RaftNode {
 		panic(err)
 	}
 	n.metrics = newRaftNodeMetrics(n)
-	if !rt.Symbolic() {
+	if !rt.Symbolic() && !noRaft {
 		zzAttachRaft(n)
 	}
 	return n
